@@ -3,7 +3,7 @@ import prims
 import values
 from values import VAL, show
 from runner import inst
-from rules.common import tags_of, cls_of, witness_path, arg_role
+from rules.common import tags_of, cls_of, witness_path, arg_role, obj_root, strip_view
 from graph import path_brief
 
 EXPLANATION = ('(R15.1) call-graph effect closure of every implementation of every read-side trait method and of the read-only '
@@ -11,8 +11,10 @@ EXPLANATION = ('(R15.1) call-graph effect closure of every implementation of eve
                'graphs the only utimens-by-handle call passes None for mtime; (R15.2) in the stacked cache (dyn calls kept as '
                'abstract operations) every write-side trait call has a receiver derived from the write-side field, and the '
                'read-side field only ever receives the read-side trait\'s methods; (R15.3) the constructors used by the read-side '
-               'builder, and the builder itself, reach no filesystem primitive (nothing is created at construction).')
-FLOORS = {'R15.1': 6, 'R15.2': 8, 'R15.3': 4}
+               'builder, and the builder itself, reach no filesystem primitive (nothing is created at construction); (R15.4) in the '
+               'stacked cache a handle returned by a read-side lookup is never the object of a mutating primitive nor the source of '
+               'a link (no second name for a read-only inode).')
+FLOORS = {'R15.1': 6, 'R15.2': 8, 'R15.3': 4, 'R15.4': 2}
 FIXTURE_RULES = []
 
 ALLOWED_RO = {'probe', 'open_ro', 'meta_atime', 'meta_times_h', 'seek', 'read', 'usercb'}
@@ -123,6 +125,80 @@ def r15_3(ctx):
     return out
 
 
+def _derived(v, _memo=None):
+    """sub-terms a value is computed from, not counting what was merely written *into* a mutated object"""
+    out = set()
+    work = [v]
+    while work:
+        x = work.pop()
+        if x in out:
+            continue
+        out.add(x)
+        t = VAL[x]
+        if t[0] == 'sym' and t[1] == 'mut':
+            work.append(t[2])
+        else:
+            work.extend(values.children(t))
+    return out
+
+
+READ_ONLY_USES = {'probe', 'seek', 'read', 'close', 'open_ro', 'sync', 'fd_raw'}
+
+
+def r15_4(ctx):
+    """What the stacked cache does with a file it got from the read side: the handle of a read-side hit may be read,
+    rewound, compared, returned or dropped.  It is never the object of a mutating primitive, and never the *source* of
+    a link (a second name for the read-only inode would let every later chmod/utimens/unlink of the write cache land
+    on the read-only cache's file)."""
+    out = []
+    rt = ctx.role('read_trait')
+    for name, k in stack_entries(ctx):
+        q = ctx.explore(k, mode='layer')
+        R = q.edges(lambda ev: ev['k'] == 'traitcall' and ev['trait'] == rt)
+        handles = set()
+        for e in R:
+            handles.add(q.E[e][2]['res'])
+        if not handles:
+            continue
+        bad = []
+        uses = 0
+        for e in q.edges(lambda ev: ev['k'] == 'ext'):
+            ev = q.E[e][2]
+            c = cls_of(ev)
+            if c not in prims.FS_CLASSES or c in READ_ONLY_USES:
+                continue
+            spec = prims.P.get(ev['path']) or {}
+            roles = [r for r in ('dst', 'path', 'handle', 'src', 'dir') if r in spec]
+            if c == 'content_write':
+                roles = [r for r in roles if r != 'src']
+            objs = [(r, arg_role(ev, r)) for r in roles] if roles else [('arg', a) for a in ev['args']]
+            hit = []
+            for r, o in objs:
+                if o is None:
+                    continue
+                if r == 'src' and c in ('publish_excl', 'publish_replace'):
+                    # a source *name* computed from the handle (e.g. /proc/self/fd/N) designates its inode
+                    if _derived(o) & handles:
+                        hit.append(o)
+                elif strip_view(values.mut_root(obj_root(o))) in handles:
+                    hit.append(o)
+            if not hit:
+                continue
+            uses += 1
+            if c in ('meta_atime',):
+                continue
+            if c == 'meta_times_h':
+                mt = arg_role(ev, 'mtime')
+                if mt is not None and VAL[mt][0:3] == ('agg', 'std::option::Option', 'v0'):
+                    continue
+            bad.append((e, c))
+        ok = not bad
+        out.append(inst('R15.4', name, ok, 'read-side handles (%d lookups) are only read, rewound, compared, returned or dropped' % len(R) if ok else
+                        'a file obtained from the read side is the object of %s (%s)' % (bad[0][1], q.E[bad[0][0]][2]['path']),
+                        path=witness_path(q, bad[0][0]) if bad else []))
+    return out
+
+
 def run(ctx):
     from runner import collect
-    return collect(ctx, r15_1, r15_2, r15_3)
+    return collect(ctx, r15_1, r15_2, r15_3, r15_4)
